@@ -343,6 +343,8 @@ struct FontInfo {
     bch: Vec<u32>,
     tiny: bool,
     colr: bool,
+    /// seams of adjacent cmap format-12 groups: (last code of a group, first code of the next)
+    seams: Vec<(u32, u32)>,
     /// cmap format 14: (character, variation selector, Some(glyph) for a non-default mapping / None for
     /// "use the default glyph")
     variants: Vec<(u32, u32, Option<u32>)>,
@@ -408,6 +410,101 @@ fn locations(axes: usize) -> Vec<Vec<F2Dot14>> {
 const TINY_ITEMS_QUICK: usize = 9;
 const TINY_ITEMS_THOROUGH: usize = 12;
 
+/// Code-point ranges (inclusive) named by any cmap subtable, read from the raw segment / group fields —
+/// NOT through the `Charmap::mappings()` / `Cmap12::iter()` iterators, so that a defect of those
+/// iterators cannot hide characters from the harness.
+fn raw_cmap_ranges(font: &FontRef) -> Vec<(u32, u32)> {
+    use skrifa::raw::tables::cmap::CmapSubtable;
+    let mut ranges: Vec<(u32, u32)> = vec![];
+    let Ok(cmap) = font.cmap() else {
+        return ranges;
+    };
+    for rec in cmap.encoding_records() {
+        match rec.subtable(cmap.offset_data()) {
+            Ok(CmapSubtable::Format4(t)) => {
+                for (s, e) in t.start_code().iter().zip(t.end_code().iter()) {
+                    let (s, e) = (s.get() as u32, e.get() as u32);
+                    // U+FFFF is the format's own sentinel
+                    if s <= e && s != 0xFFFF {
+                        ranges.push((s, e.min(0xFFFE)));
+                    }
+                }
+            }
+            Ok(CmapSubtable::Format12(t)) => {
+                for g in t.groups() {
+                    if g.start_char_code() <= g.end_char_code() {
+                        ranges.push((g.start_char_code(), g.end_char_code().min(0x10FFFF)));
+                    }
+                }
+            }
+            Ok(CmapSubtable::Format13(t)) => {
+                for g in t.groups() {
+                    if g.start_char_code() <= g.end_char_code() {
+                        ranges.push((g.start_char_code(), g.end_char_code().min(0x10FFFF)));
+                    }
+                }
+            }
+            Ok(CmapSubtable::Format6(t)) => {
+                let s = t.first_code() as u32;
+                if t.entry_count() > 0 {
+                    ranges.push((s, s + t.entry_count() as u32 - 1));
+                }
+            }
+            Ok(CmapSubtable::Format0(_)) => ranges.push((0, 255)),
+            _ => {}
+        }
+    }
+    ranges.sort();
+    // merge
+    let mut out: Vec<(u32, u32)> = vec![];
+    for (s, e) in ranges {
+        match out.last_mut() {
+            Some(l) if s <= l.1.saturating_add(1) => l.1 = l.1.max(e),
+            _ => out.push((s, e)),
+        }
+    }
+    out
+}
+
+/// Every nominal mapping of a font: `Charmap::map()` evaluated on every code point any subtable names.
+fn all_mappings(font: &FontRef) -> Vec<(u32, u32)> {
+    let cm = font.charmap();
+    let mut out = vec![];
+    for (s, e) in raw_cmap_ranges(font) {
+        for c in s..=e {
+            if let Some(g) = cm.map(c) {
+                out.push((c, g.to_u32()));
+            }
+        }
+    }
+    out
+}
+
+/// Characters on the seams of ADJACENT format-12 groups (a group that starts right after the previous
+/// one ends): for the first `max` seams, the last code of the earlier and the first code of the later
+/// group.
+fn cmap12_seams(font: &FontRef, max: usize) -> Vec<(u32, u32)> {
+    use skrifa::raw::tables::cmap::CmapSubtable;
+    let mut out = vec![];
+    let Ok(cmap) = font.cmap() else {
+        return out;
+    };
+    for rec in cmap.encoding_records() {
+        if let Ok(CmapSubtable::Format12(t)) = rec.subtable(cmap.offset_data()) {
+            let groups = t.groups();
+            for w in groups.windows(2) {
+                if w[1].start_char_code() == w[0].end_char_code().wrapping_add(1) && out.len() < max {
+                    let pair = (w[0].end_char_code(), w[1].start_char_code());
+                    if !out.contains(&pair) {
+                        out.push(pair);
+                    }
+                }
+            }
+        }
+    }
+    out
+}
+
 fn load_font(name: String, bytes: Vec<u8>, index: u32, tier: Tier) -> Option<FontInfo> {
     let font = FontRef::from_index(&bytes, index).ok()?;
     font.glyf().ok()?;
@@ -419,11 +516,9 @@ fn load_font(name: String, bytes: Vec<u8>, index: u32, tier: Tier) -> Option<Fon
         return None;
     }
     let num_long_metrics = font.hhea().ok()?.number_of_h_metrics() as u32;
-    let cmap: BTreeMap<u32, u32> = font
-        .charmap()
-        .mappings()
-        .map(|(c, g)| (c, g.to_u32()))
-        .collect();
+    // the request-character alphabet: map() over the raw subtable ranges, never mappings()
+    let cmap: BTreeMap<u32, u32> = all_mappings(&font).into_iter().collect();
+    let seams = cmap12_seams(&font, 8);
     let comps: Vec<Vec<u32>> = (0..num_glyphs)
         .map(|g| direct_components(&font, g).unwrap_or_default())
         .collect();
@@ -445,6 +540,7 @@ fn load_font(name: String, bytes: Vec<u8>, index: u32, tier: Tier) -> Option<Fon
         bch: vec![],
         tiny: false,
         colr: font.colr().is_ok(),
+        seams,
         variants: font
             .charmap()
             .variant_mappings()
@@ -742,6 +838,36 @@ fn requests_for(fi: &FontInfo, tier: Tier) -> Vec<Planned> {
             flags: main_flags.clone(),
             resubset: true,
         });
+    }
+    // cmap format-12 group seams: klippa looks characters up one by one for character-only requests but
+    // walks the whole character map as soon as a glyph id is requested, so the seam characters are
+    // requested together with one glyph id (and all together with one glyph id)
+    if !fi.seams.is_empty() && use_chars && !fi.huge_cmap {
+        let gids: Vec<u32> = [0u32, *fi.bgl.get(1).unwrap_or(&0)].into_iter().collect();
+        let mut reqs: Vec<Request> = vec![];
+        let all_seam_chars: Vec<u32> = {
+            let mut v: Vec<u32> = fi.seams.iter().flat_map(|(a, b)| [*a, *b]).collect();
+            v.sort();
+            v.dedup();
+            v
+        };
+        for g in &gids {
+            for (a, b) in &fi.seams {
+                reqs.push(Request { gids: vec![*g], unicodes: vec![*a] });
+                reqs.push(Request { gids: vec![*g], unicodes: vec![*b] });
+                reqs.push(Request { gids: vec![*g], unicodes: vec![*a, *b] });
+            }
+            reqs.push(Request { gids: vec![*g], unicodes: all_seam_chars.clone() });
+        }
+        for r in reqs {
+            if seen.insert(r.clone()) {
+                out.push(Planned {
+                    req: r,
+                    flags: vec![0, F_RETAIN_GIDS],
+                    resubset: true,
+                });
+            }
+        }
     }
     // gvar offset-format boundary: when the font has more than 0x1FFFE bytes of gvar data the subset's
     // short/long offset decision is at stake; every gid prefix 0..=j and every gid suffix j..=last is
@@ -1147,11 +1273,11 @@ fn verify(fi: &FontInfo, req: &Request, flags: u16, out: &[u8]) -> Result<Outcom
             ),
         }
     }
-    for (c, n) in sub_cm.mappings() {
+    for (c, n) in all_mappings(&sub) {
         let og = fi.cmap.get(&c).copied();
         let wanted = req_chars.contains(&c) || og.map_or(false, |g| req_gids.contains(&g));
         if !wanted {
-            viol!("unrequested character mapped", "U+{c:04X} → new glyph {} although neither it nor its original glyph {og:?} was requested", n.to_u32());
+            viol!("unrequested character mapped", "U+{c:04X} → new glyph {n} although neither it nor its original glyph {og:?} was requested");
             break;
         }
     }
@@ -1773,7 +1899,7 @@ fn body(run: &Run, replay: Option<&Value>) {
         font_rows.push(json!({
             "font": fi.name, "glyphs": fi.num_glyphs, "chars": fi.cmap.len(), "axes": fi.axes, "colr": fi.colr,
             "long_metrics": fi.num_long_metrics, "composites": fi.comps.iter().filter(|c| !c.is_empty()).count(),
-            "tiny_all_subsets": fi.tiny, "variation_sequences": fi.variants.len(), "boundary_gids": fi.bgl, "boundary_chars": fi.bch,
+            "tiny_all_subsets": fi.tiny, "variation_sequences": fi.variants.len(), "cmap12_adjacent_group_seams_used": fi.seams.len(), "boundary_gids": fi.bgl, "boundary_chars": fi.bch,
             "requests": reqs.len(), "cases": reqs.iter().map(|p| p.flags.len()).sum::<usize>(),
             "ref_draw_errors": fi.obs.iter().filter(|o| !o.ok).count(),
             "huge_cmap_reduced_space": fi.huge_cmap, "nonconforming_cmap_no_char_requests": fi.nonconforming_cmap,
